@@ -38,7 +38,13 @@ DelGrid ==
   {DelCase(mn, ds, nm, l, f) : mn \in {0, 1, 2}, ds \in {1, 2, 3, 4}, nm \in {2, 3, 5}, l \in Lists,
                                f \in {<<>>} \cup (IF Tier = "quick" THEN {<<"m2">>} ELSE {<<"m1">>, <<"m2">>, <<"m3">>})}
 
-Grid == SetGrid \cup FleetVariants \cup DelGrid
+\* DeleteNodes (possibly failing midway) followed by IncreaseSize on the same provider object, without a refresh in between
+\* (what a scan does when it removes nodes and then scales up): the increase starts from the desired capacity the cloud now has
+DelIncGrid ==
+  {[DelCase(mn, ds, nm, l, f) EXCEPT !.kind = "delinc", !.d = d, !.max = 10] :
+     mn \in {0, 1}, ds \in {3, 4}, nm \in {4}, l \in {<<"m1">>, <<"m1", "m2">>, <<"m1", "m2", "m3">>, <<"m2", "x1">>}, f \in {<<>>, <<"m2">>, <<"m3">>}, d \in {1, 2}}
+
+Grid == SetGrid \cup FleetVariants \cup DelGrid \cup DelIncGrid
 
 SpecCase(k) == [min |-> k.min, max |-> k.max, desired |-> k.desired, d |-> k.d, fleet |-> k.fleet, lifecycle |-> k.lifecycle, types |-> k.types,
                 subnets |-> k.subnets, tagging |-> k.tagging, never |-> k.never, tries0 |-> k.prefail, lo |-> 0,
@@ -55,6 +61,7 @@ GridOK ==
              post == c.desired + r.attached + (IF r.setTo >= 0 THEN r.setTo - c.desired ELSE 0)
          IN C17bad(c, r.calls, r.ret, post) = {} /\ C18bad(c, r.calls, r.ret) = {}
     ELSE LET r == DelResult(c, SeqSet(case.failNodes)) IN C19bad(c, r.calls, r.ret) = {}
+    \* (for "delinc" the increase is validated on the real code by TraceAws; the delete part is the same as "del")
 
 Emit == PrintT(ToJson([kind |-> "CASE", case |-> case]))
 
